@@ -50,7 +50,7 @@
 From AV Require Import Base.Bytes Base.Outcome Hash.HashModel Tree.Heap Tree.Ops Tree.Script Tree.Serialize Tree.Inv.
 From AV Require Import Tree.Files Tree.FilesProofsProj Tree.FilesProofsFrame Tree.FilesProofsAdd Tree.FilesProofsRemove Tree.FilesProofsExact Tree.FilesProofsLast Tree.FilesProofsMove
   Tree.FilesProofsInv Tree.FilesProofsHist Tree.FilesProofsTop Tree.FilesProofsExact2 Tree.FilesProofsOwned Tree.FilesProofsText Tree.FilesProofsLoad Tree.FilesProofsOp2
-  Tree.FilesLoad Tree.FilesProofsMerge Tree.FilesProofsBridge Tree.FilesProofsLoad2 Tree.FilesProofsLoad3 Tree.FilesProofsLoad4 Tree.FilesProofsLoad5 Tree.FilesProofsOp2b Tree.FilesProofsDup Tree.FilesProofsDup2 Tree.FilesProofsDup3.
+  Tree.FilesLoad Tree.FilesProofsMerge Tree.FilesProofsBridge Tree.FilesProofsLoad2 Tree.FilesProofsLoad3 Tree.FilesProofsLoad4 Tree.FilesProofsLoad5 Tree.FilesProofsOp2b Tree.FilesProofsDup Tree.FilesProofsDup2 Tree.FilesProofsDup3 Tree.FilesProofsNames Tree.FilesProofsNames2.
 From AV Require Tree.CopyProofsDefs Tree.InvLoad Tree.Load Tree.MergeSpec Tree.MergePure Tree.MergePureProofs Tree.LoadRefineBase Tree.LoadRefinePure Tree.LoadRefineMain Tree.LoadRefineTop.
 From AV Require Import Tree.Script2.
 From AV Require Tree.Index Tree.Copy Xml.Parser Xml.Serializer Xml.RoundTripFile.
@@ -585,6 +585,43 @@ Theorem C10_files_owned_history2 :
            attr_schema_location root_attrs l w = Val w' ->
   Core w' /\ FilesOwned w'.
 Proof. exact owned_histories2_all. Qed.
+
+(* ---------- file names: the files of a model have pairwise different names (create_file and load_buffer reject a
+   name the model already has; duplicate() makes every file of the copy through create_file).  Inv3 = Core /\ FilesOwned
+   /\ NamesUnique is an invariant of EVERY history over the whole alphabet op2 outside C03's Known_load: this is the
+   full-alphabet history theorem of C10 — FilesInv itself is not an invariant of such histories (C10_load_rule_c_witness,
+   C10_load_root_partial_witness), the per-operation theorems for load and duplicate are above. ---------- *)
+Theorem C10_names_unique_step :
+  forall (T : tables) (tab_el tab_en : nametab) (check_fn : N -> list N -> res bool) (LATEST : N)
+         (root_attrs : list (N * cdata)) (o : op) (w : world) (r : out value) (w' : world),
+  Core w -> FilesOwned w -> NamesUnique w ->
+  run_op T tab_el tab_en check_fn LATEST root_attrs o w = Val (r, w') -> NamesUnique w'.
+Proof. exact names_step_all. Qed.
+
+Theorem C10_history2_owned_full :
+  forall (T : tables) (tab_el tab_at tab_en : nametab) (check_fn : N -> list N -> res bool)
+         (float_parse : list N -> option N) (float_fmt : N -> list N)
+         (LATEST name_index name_definition_ref attr_schema_location : N) (root_attrs : list (N * cdata))
+         (l : list op2) (w w' : world),
+  Inv3 w ->
+  steps_clean2 T tab_el tab_at tab_en check_fn float_parse float_fmt LATEST name_index name_definition_ref
+               attr_schema_location root_attrs l w = true ->
+  run_ops2 T tab_el tab_at tab_en check_fn float_parse float_fmt LATEST name_index name_definition_ref
+           attr_schema_location root_attrs l w = Val w' ->
+  Inv3 w'.
+Proof. exact inv3_histories2_all. Qed.
+
+Theorem C10_reachable2_owned_full :
+  forall (T : tables) (tab_el tab_at tab_en : nametab) (check_fn : N -> list N -> res bool)
+         (float_parse : list N -> option N) (float_fmt : N -> list N)
+         (LATEST name_index name_definition_ref attr_schema_location : N) (root_attrs : list (N * cdata))
+         (l : list op2) (w' : world),
+  steps_clean2 T tab_el tab_at tab_en check_fn float_parse float_fmt LATEST name_index name_definition_ref
+               attr_schema_location root_attrs l empty_world = true ->
+  run_ops2 T tab_el tab_at tab_en check_fn float_parse float_fmt LATEST name_index name_definition_ref
+           attr_schema_location root_attrs l empty_world = Val w' ->
+  Inv3 w'.
+Proof. exact inv3_reachable2. Qed.
 
 (* AutosarModel::duplicate (PENDING for FilesInv of the copy): FilesOwned is kept, the models that were there keep their
    places and their invariant *)
